@@ -232,20 +232,7 @@ def run(repo, rep):
                     n += 1
                     rep.check(nxt is None or nxt is D.HL, 'C01.b', 'sequence_of_docs[dangle,commented]:comma-outside-comment', sod.where,
                               'nothing but a line break follows the comment', 'the text %s follows the comment on the same line' % D.show(nxt))
-    for nel in (2, 3):
-        docs = [S.sub('e%d' % i) for i in range(nel)]
-        for pr in itb.explore(sod, [CtxV(), S.punct('['), ListV(docs), S.punct(']')], {'dangle': Const(False), 'force_break': Const(False)}):
-            for seq in D.all_layouts(pr.value.t):
-                sig = S.content_sig(seq)
-                want = [('Text', '[')]
-                for i in range(nel):
-                    want.append(('Sub', 'e%d' % i))
-                    if i < nel - 1:
-                        want.append(('Text', ','))
-                want.append(('Text', ']'))
-                n += 1
-                rep.check(list(sig) == want, 'C01.a', 'sequence_of_docs[n=%d]:content' % nel, sod.where, 'elements separated by single commas',
-                          'content of a %d-element sequence is %s' % (nel, sig), nontrivial=True)
+    n += S.sequence_builder_content(repo, rep, 'C01.a')
     rep.floor('C01.b:builder', n, 6)
 
     # ---------------------------------------------------------------- dict
